@@ -32,5 +32,5 @@ if __name__ == '__main__':
         print('      vac', x['vacuity'], 'explore_proof', x.get('t_explore_proof'), 'discharge', x.get('t_discharge'), 'explore_finite', x.get('t_explore_finite'))
     for x in res:
         for o in x['obligations']:
-            if o['seconds'] > 1.5: print('SLOW %.1fs' % o['seconds'], o['id'], o['ordinal'], 'L%d' % o['lineno'], o['result'])
+            if o['seconds'] > 1.5: print('SLOW %.1fs' % o['seconds'], o['id'], o['ordinal'], 'L%d' % o['lineno'], o['result'], o['goal'][:260].replace(chr(10), ' '))
     print('total %.1fs' % (time.time() - t))
